@@ -183,8 +183,25 @@ def rule_i9(ctx):
     inst = defs(nt[0].value.args[1].id)
     if len(inst) != 1:
         raise Unrecognised("C13.I9", c, "definition of the instantiated connecting tree not found")
-    bad = [b for b in branches(inst[0].value) if not (is_replace(b) and src(b.args[1]) == add)]
-    if bad and all(isinstance(b, ast.Name) for b in bad):
+    def places_add(b, depth=0):
+        if is_replace(b) and src(b.args[1]) == add:
+            return True
+        if isinstance(b, ast.Name) and depth < 3:
+            d = defs(b.id)
+            return len(d) == 1 and all(places_add(x, depth + 1) for x in branches(d[0].value))
+        return False
+
+    def is_bare_connecting_tree(b):
+        """a name bound to the freshly built connecting tree (DerivationTree(...)) or used as the receiver of the instantiating replace_path elsewhere"""
+        if not isinstance(b, ast.Name):
+            return False
+        d = defs(b.id)
+        built = len(d) == 1 and isinstance(d[0].value, ast.Call) and call_name(d[0].value) == "DerivationTree"
+        recv_elsewhere = any(is_replace(x) and src(x.func.value) == b.id for x in ast.walk(f))
+        return built or recv_elsewhere
+
+    bad = [b for b in branches(inst[0].value) if not places_add(b)]
+    if bad and all(is_bare_connecting_tree(b) for b in bad):
         ctx.viol("I9-connect-keeps-identities", c, f"`{add}` placed into the connecting tree on every path", site(bad[0]),
                  f"on some path the connecting tree is used as it is (`{src(bad[0])}`) instead of `.replace_path(leaf, {add})`: the node `{add}` itself (its id, which the "
                  "constraint refers to) is not part of the result even when it is a bare open leaf")
